@@ -17,24 +17,36 @@ pub enum HandlerError { Handler { message: String, rsp: Response }, Dropshot(Htt
 pub trait HttpResponse {}
 pub trait HttpResponseError: From<HttpError> {}
 /// `impl<E: HttpResponseError> From<E> for HandlerError` (handler.rs) -- result not needed here
+pub uninterp spec fn handler_error_of<E>(e: E) -> HandlerError;
 impl<E: HttpResponseError> From<E> for HandlerError {
     #[verifier::external_body]
-    fn from(e: E) -> (r: HandlerError) { unimplemented!() }
+    fn from(e: E) -> (r: HandlerError) ensures r == handler_error_of(e) { unimplemented!() }
+}
+impl<E: HttpResponseError> vstd::std_specs::convert::FromSpecImpl<E> for HandlerError {
+    open spec fn obeys_from_spec() -> bool { true }
+    open spec fn from_spec(e: E) -> Self { handler_error_of(e) }
 }
 /// "this argument tuple was produced by a SUCCESSFUL extraction from this request"
 pub uninterp spec fn extracted_ok<P>(p: P) -> bool;
 /// extractor/common.rs: RequestExtractor (async erased)
+/// what the extractor makes of this request: an uninterpreted function of the request context and the request
+pub uninterp spec fn extraction<P, Context>(rqctx: RequestContext<Context>, request: Request) -> Result<P, HttpError>;
 pub trait RequestExtractor: Sized {
     fn from_request<Context: ServerContext>(rqctx: &RequestContext<Context>, request: Request) -> (r: Result<Self, HttpError>)
-        ensures r is Ok ==> extracted_ok(r->Ok_0);
+        ensures r == extraction::<Self, Context>(*rqctx, request), r is Ok ==> extracted_ok(r->Ok_0);
 }
 /// handler.rs: HttpHandlerFunc -- the consumer's handler function.  Its PRECONDITION is the obligation "a handler
 /// only ever runs on arguments that a successful extraction produced"; it is proved at the call site in
 /// HttpRouteHandler::handle_request.
 pub trait HttpHandlerFunc<Context: ServerContext, FuncParams: RequestExtractor, ResponseType: HttpResponse> {
     type Error: HttpResponseError;
+    /// what the consumer's handler returns for these arguments
+    spec fn outcome(&self, rqctx: RequestContext<Context>, params: FuncParams) -> Result<Response, HandlerError>;
+    /// the consumer's own conversion of dropshot's error into its error type (`Self::Error: From<HttpError>`)
+    spec fn own_error(e: HttpError) -> Self::Error;
     fn handle_request(&self, rqctx: RequestContext<Context>, params: FuncParams) -> (r: Result<Response, HandlerError>)
-        requires extracted_ok(params);
+        requires extracted_ok(params),
+        ensures r == self.outcome(rqctx, params);
 }
 pub trait RouteHandler<Context: ServerContext> {
     fn handle_request(&self, rqctx: RequestContext<Context>, request: Request) -> Result<Response, HandlerError>;
